@@ -44,7 +44,7 @@ theorem findField_spec (name : Bytes) : ∀ (ks : List Bytes) (vs : List Doc),
       | false => simpa using ih vs
 
 theorem fieldByName_struct (name : Bytes) (ks : List Bytes) (vs : List Doc) (rv : RV)
-    (he : isEmptyValue rv = false) (hd : rv.derefOnce = .val (renderS (.obj ks vs))) :
+    (he : isEmptyValue rv = false) (hd : rv.derefAll = .val (renderS (.obj ks vs))) :
     fieldByName name rv = (specGet name ks vs).map renderS := by
   unfold fieldByName
   rw [he, hd]
@@ -62,7 +62,7 @@ theorem fieldByName_struct (name : Bytes) (ks : List Bytes) (vs : List Doc) (rv 
 theorem identDo_objS (name : Bytes) (ks : List Bytes) (vs : List Doc) :
     identDo name (renderS (.obj ks vs)) = match specGet name ks vs with | some v => .ok (renderS v) | none => .knf := by
   have hf := fieldByName_struct name ks vs (RV.of (renderS (.obj ks vs)))
-    (by simp [renderS, RV.of, isEmptyValue]) (by simp [renderS, RV.of, RV.derefOnce, RV.kind, GoVal.kind])
+    (by simp [renderS, RV.of, isEmptyValue]) (by simp [renderS, RV.of, RV.derefAll, GoVal.strip])
   have : identDo name (renderS (.obj ks vs)) =
       match fieldByName name (RV.of (renderS (.obj ks vs))) with | some o => .ok o | none => .knf := by
     rfl
@@ -73,13 +73,13 @@ theorem fieldByName_renderS (name : Bytes) (x : Doc) :
     fieldByName name (.iface (renderS x)) = (projGet name x).map renderS := by
   cases x with
   | null => simp [renderS, fieldByName, isEmptyValue, projGet]
-  | bool b => simp [renderS, fieldByName, isEmptyValue, projGet, RV.derefOnce, RV.kind, RV.elem, RV.of]
-  | num d => simp [renderS, fieldByName, isEmptyValue, projGet, RV.derefOnce, RV.kind, RV.elem, RV.of]
-  | str s => simp [renderS, fieldByName, isEmptyValue, projGet, RV.derefOnce, RV.kind, RV.elem, RV.of]
-  | arr xs => simp [renderS, fieldByName, isEmptyValue, projGet, RV.derefOnce, RV.kind, RV.elem, RV.of]
+  | bool b => simp [renderS, fieldByName, isEmptyValue, projGet, RV.derefOnce, RV.derefAll, GoVal.strip, RV.kind, RV.elem, RV.of]
+  | num d => simp [renderS, fieldByName, isEmptyValue, projGet, RV.derefOnce, RV.derefAll, GoVal.strip, RV.kind, RV.elem, RV.of]
+  | str s => simp [renderS, fieldByName, isEmptyValue, projGet, RV.derefOnce, RV.derefAll, GoVal.strip, RV.kind, RV.elem, RV.of]
+  | arr xs => simp [renderS, fieldByName, isEmptyValue, projGet, RV.derefOnce, RV.derefAll, GoVal.strip, RV.kind, RV.elem, RV.of]
   | obj ks vs =>
     simp only [projGet]
-    exact fieldByName_struct name ks vs _ (by simp [renderS, isEmptyValue]) (by simp [renderS, RV.derefOnce, RV.kind, RV.elem, RV.of])
+    exact fieldByName_struct name ks vs _ (by simp [renderS, isEmptyValue]) (by simp [renderS, RV.derefOnce, RV.derefAll, GoVal.strip, RV.kind, RV.elem, RV.of])
 
 theorem filterMap_renderS (name : Bytes) : ∀ (xs : List Doc),
     ((renderSList xs).map RV.iface).filterMap (fieldByName name) = renderSList (xs.filterMap (projGet name)) := by
@@ -96,8 +96,8 @@ theorem renderSList_isEmpty (xs : List Doc) : (renderSList xs).isEmpty = xs.isEm
   cases xs <;> rfl
 
 theorem headKindS (x : Doc) :
-    (let k := ((RV.iface (renderS x)).derefOnce).kind; (k == Kind.struct || k == Kind.map)) = headOk x := by
-  cases x <;> simp [renderS, RV.derefOnce, RV.kind, RV.elem, RV.of, GoVal.kind, isObj, isNum, headOk]
+    (let k := ((RV.iface (renderS x)).derefAll).kind; (k == Kind.struct || k == Kind.map)) = headOk x := by
+  cases x <;> simp [renderS, RV.derefAll, GoVal.strip, RV.kind, RV.elem, RV.of, GoVal.kind, isObj, isNum, headOk]
 
 theorem identDo_arrS (name : Bytes) (xs : List Doc) :
     identDo name (renderS (.arr xs)) =
@@ -122,7 +122,7 @@ theorem identDo_primS (name : Bytes) (d : Doc) (h : ∀ ks vs, d ≠ .obj ks vs)
   cases d with
   | null => simp [renderS, identDo, RV.of, RV.derefOnce, RV.kind, valuesByName, isEmptyValue]
   | bool b => cases b <;> simp [renderS, identDo, RV.of, RV.derefOnce, RV.kind, GoVal.kind, valuesByName, isEmptyValue]
-  | num x => simp [renderS, identDo, RV.of, RV.derefOnce, RV.kind, GoVal.kind, valuesByName, isEmptyValue, fieldByName]
+  | num x => simp [renderS, identDo, RV.of, RV.derefOnce, RV.derefAll, GoVal.strip, RV.kind, GoVal.kind, valuesByName, isEmptyValue, fieldByName]
   | str s => cases s <;> simp [renderS, identDo, RV.of, RV.derefOnce, RV.kind, GoVal.kind, valuesByName, isEmptyValue]
   | arr xs => exact absurd rfl (h2 xs)
   | obj ks vs => exact absurd rfl (h ks vs)
